@@ -13,6 +13,7 @@ def showObs : DnsObs → String
   | .callback none => "CALLBACK null"
   | .callback (some ip) => s!"CALLBACK {showIp ip}"
   | .connect k => s!"CONNECT {k}"
+  | .connectRefused => "CONNECTREFUSED"
   | .sent h l => s!"SENT {if h then 1 else 0} {l}"
   | .disconnect => "DISCONNECT"
   | .notArmed => "NOTARMED"
@@ -32,6 +33,12 @@ def step (s : Dns) (toks : List String) : Dns × List String :=
     | ["fire", "timeout"] => some .fireTimeout
     | ["fire", "retry"] => some .fireRetry
     | _ => none
+  match toks with
+  | "connres" :: codes =>
+    -- results of the next espconn_connect calls: 0 = the request is accepted
+    let s' := { s with connScript := codes.map (· == "0") }
+    (s', [s!"STATE {b2n s'.success} {s'.tries} {b2n s'.timeoutArmed} {b2n s'.retryArmed}"])
+  | _ =>
   match ev with
   | none => (s, ["BADOP", s!"STATE {b2n s.success} {s.tries} {b2n s.timeoutArmed} {b2n s.retryArmed}"])
   | some e =>
